@@ -142,7 +142,10 @@ pub fn run_history(
     mem.set_tree(tree.clone());
     mem.set_logging(false);
     CTX.log_on.store(false, std::sync::atomic::Ordering::SeqCst);
-    let mut real = front.build(mem.clone());
+    // the shard count is 4 * next_power_of_two(available CPUs) at construction:
+    // vary it, including CPU counts that are not powers of two
+    let ncpu = [16usize, 1, 3, 2, 5, 6, 12, 4, 7][(crate::rng::fnv_str(&format!("{ops:?}")) % 9) as usize];
+    let mut real = crate::util::with_cpus(ncpu, || front.build(mem.clone()));
     if real.is_hot() != front.hot() {
         rep.violation(
             "is-hot-reloaded",
